@@ -149,10 +149,10 @@ def run(ctx):
     per_cap = {}
     for cap in caps:
         inputs = [{"cache": cap, "events": hist.go_events(e)} for e in evs]
-        ok, outs, lg = vlib.run_driver_parallel(ctx.bins["engine"], "history", inputs, nshards=10)
+        ok, outs, lg = vlib.run_driver_parallel(ctx.bins["engine"], "history", inputs, nshards=10, resilient=True)
         if not ok or len(outs) != len(evs):
             raise RuntimeError("history driver failed at cache=%d: %s" % (cap, lg[-2000:]))
-        per_cap[cap] = [o["events"] for o in outs]
+        per_cap[cap] = [o.get("events", []) for o in outs]
     ref = per_cap[10000]
     out = {"spec_violations": [], "model_mismatches": [],
            "correspondence_name": "history driver with a small LRU vs the model (no cache) and vs the default cache"}
@@ -194,6 +194,27 @@ def run(ctx):
                                        "what": "table specification rejects the run at cache=%d" % small})
     for i in mm[:2]:
         out["model_mismatches"].append({"events": [list(x) for x in evs[i]], "cache": small})
+    # one deep history (three-level tree, non-root internal splits) at a cache of 24 pages vs the default:
+    # Go against Go only (the model comparison of deep histories is C01's and C11's job)
+    deep = build_case(ctx.rng, ctx.tier, "deep")
+    deep_out = {}
+    for cap in (24, 10000):
+        ok, o, lg = vlib.run_driver_resilient(ctx.bins["engine"], "history", [{"cache": cap, "events": hist.go_events(deep)}])
+        if not ok or len(o) != 1:
+            raise RuntimeError("history driver failed on the deep history at cache=%d: %s" % (cap, lg[-1500:]))
+        deep_out[cap] = [strip_cache_fields(x) for x in o[0].get("events", [])]
+    if deep_out[24] != deep_out[10000] and not any(x.get("res") == "CacheFull" for x in deep_out[24]):
+        j = next((j for j in range(min(len(deep_out[24]), len(deep_out[10000]))) if deep_out[24][j] != deep_out[10000][j]),
+                 min(len(deep_out[24]), len(deep_out[10000])))
+        a, b = (deep_out[24][j] if j < len(deep_out[24]) else None), (deep_out[10000][j] if j < len(deep_out[10000]) else None)
+        for x in (a, b):
+            if x and x.get("pages"):
+                x["pages"] = "(%d pages)" % len(x["pages"])
+        out["spec_violations"].append({
+            "events": "props.c01.build_case(kind='deep') with a flush after every statement", "cache": 24,
+            "first_difference_at_event": j, "event": [str(y)[:200] for y in deep[j:j + 1]],
+            "small_cache": a, "default_cache": b,
+            "what": "the deep history (2460 rows, three-level tree) behaves differently with a 24-page cache"})
     nps, nps_in = pstore_check(ctx, out)
     ctx.report.coverage.update({
         "page_store_traces": nps, "page_store_traces_within_discipline": nps_in,
